@@ -303,8 +303,8 @@ class Mix:
             return self.new_request()
         p, inv, st, tr = self.rng.choice(lv)
         if st == 1:       # SEGMENTED_REQUEST: ack what has been sent
-            sent_upto = (tr.initialSequenceNumber + (tr.actualWindowSize or 1) - 1)
-            last = min(sent_upto, tr.segmentCount - 1) if tr.initialSequenceNumber else 0
+            sent_upto = ((tr.initialSequenceNumber or 0) + (tr.actualWindowSize or 1) - 1)
+            last = min(sent_upto, (tr.segmentCount or 1) - 1) if tr.initialSequenceNumber else 0
             a = {"t": 4, "id": inv, "srv": 1, "seq": last % 256, "win": self.rng.choice([1, 2, 3, 4])}
         elif st == 2:
             a = self.reply_header(p, inv, self.rng.choice(["simple", "complex", "complex", "error", "reject", "abort", "complexseg"]))
@@ -314,7 +314,7 @@ class Mix:
                 a["win"] = self.rng.choice([1, 2, 3])
         else:             # SEGMENTED_CONFIRMATION: next segment in order
             a = {"t": 3, "id": inv, "svc": 200, "seg": 1, "mor": self.rng.choice([1, 1, 0]),
-                 "seq": (tr.lastSequenceNumber + 1) % 256, "win": tr.actualWindowSize or 1,
+                 "seq": ((tr.lastSequenceNumber or 0) + 1) % 256, "win": tr.actualWindowSize or 1,
                  "hex": payload(self.rng, 9).hex()}
         self.inject(p, a)
         if (p, inv) not in [(x[0], x[1]) for x in self.live("cl")]:
@@ -367,7 +367,7 @@ class Mix:
             return self.inbound_request()
         p, inv, st, tr = self.rng.choice(sv)
         a = {"t": 0, "id": inv, "svc": 200, "sa": 1, "maxResp": 3, "maxSegs": 3, "seg": 1,
-             "mor": self.rng.choice([1, 1, 0]), "seq": (tr.lastSequenceNumber + self.rng.choice([1, 1, 1, 0, 2])) % 256,
+             "mor": self.rng.choice([1, 1, 0]), "seq": ((tr.lastSequenceNumber or 0) + self.rng.choice([1, 1, 1, 0, 2])) % 256,
              "win": tr.actualWindowSize or 1, "hex": payload(self.rng, 8).hex()}
         self.inject(p, a)
 
@@ -403,7 +403,7 @@ class Mix:
         p, inv, st, tr = self.rng.choice(sv)
         sent_upto = tr.initialSequenceNumber + (tr.actualWindowSize or 1) - 1 if tr.initialSequenceNumber else 0
         a = {"t": 4, "id": inv, "srv": 0, "nak": self.rng.choice([0, 0, 0, 1]),
-             "seq": min(sent_upto, tr.segmentCount - 1) % 256, "win": self.rng.choice([1, 2, 3, 5])}
+             "seq": min(sent_upto, (tr.segmentCount or 1) - 1) % 256, "win": self.rng.choice([1, 2, 3, 5])}
         self.inject(p, a)
 
     def fire(self):
